@@ -4,8 +4,31 @@
 
 package leanhelix
 
+// Completeness (C03: what a node commits, every peer accepts in strict mode): the conditions under which a certificate is
+// accepted - every rejecting branch excluded. The quorum clause is stated for every id list enumerating the proof's nodes.
+//@ pred CertGood(lh *WorkerLoop, ctx context.Context, block interfaces.Block, bp *protocol.BlockProof, prevbp *protocol.BlockProof, prevBlock interfaces.Block, soft bool) =
+//@   | bp.BlockRef().MessageType() == protocol.LEAN_HELIX_COMMIT && bp.BlockRef().InstanceId() == lh.config.InstanceId && bp.BlockRef().BlockHeight() == block.Height()
+//@   | && Commits(lh.config.BlockUtils, block.Height(), block, bp.BlockRef().BlockHash())
+//@   | && CommitteeKnown(lh.config.Membership, ctx, blockheight.GetBlockHeight(block), blockreferencetime.GetBlockReferenceTime(prevBlock))
+//@   | && (forall nk :: 0 <= nk && nk < seq_len(bp, "Nodes") ==>
+//@   |      VerifiedMsg(lh.config.KeyManager, bp.BlockRef().BlockHeight(), bp.BlockRef().Raw(), seq_at(bp, "Nodes", nk).MemberId(), seq_at(bp, "Nodes", nk).Signature())
+//@   |      && (exists ni :: 0 <= ni && ni < len(CommitteeOf(lh.config.Membership, ctx, blockheight.GetBlockHeight(block), blockreferencetime.GetBlockReferenceTime(prevBlock)))
+//@   |            && CommitteeOf(lh.config.Membership, ctx, blockheight.GetBlockHeight(block), blockreferencetime.GetBlockReferenceTime(prevBlock))[ni].Id == seq_at(bp, "Nodes", nk).MemberId()))
+//@   | && (forall nj, nk :: 0 <= nj && nj < nk && nk < seq_len(bp, "Nodes") ==> seq_at(bp, "Nodes", nj).MemberId() != seq_at(bp, "Nodes", nk).MemberId())
+//@   | && (forall qids []primitives.MemberId :: len(qids) == seq_len(bp, "Nodes") && (forall qk :: 0 <= qk && qk < seq_len(bp, "Nodes") ==> qids[qk] == seq_at(bp, "Nodes", qk).MemberId()) ==>
+//@   |      (!soft ==> SW(qids, CommitteeOf(lh.config.Membership, ctx, blockheight.GetBlockHeight(block), blockreferencetime.GetBlockReferenceTime(prevBlock)), len(CommitteeOf(lh.config.Membership, ctx, blockheight.GetBlockHeight(block), blockreferencetime.GetBlockReferenceTime(prevBlock))))
+//@   |                  >= Qz(SumMW(CommitteeOf(lh.config.Membership, ctx, blockheight.GetBlockHeight(block), blockreferencetime.GetBlockReferenceTime(prevBlock)), len(CommitteeOf(lh.config.Membership, ctx, blockheight.GetBlockHeight(block), blockreferencetime.GetBlockReferenceTime(prevBlock))))))
+//@   |      && (soft ==> SW(qids, CommitteeOf(lh.config.Membership, ctx, blockheight.GetBlockHeight(block), blockreferencetime.GetBlockReferenceTime(prevBlock)), len(CommitteeOf(lh.config.Membership, ctx, blockheight.GetBlockHeight(block), blockreferencetime.GetBlockReferenceTime(prevBlock))))
+//@   |                  > Fz(SumMW(CommitteeOf(lh.config.Membership, ctx, blockheight.GetBlockHeight(block), blockreferencetime.GetBlockReferenceTime(prevBlock)), len(CommitteeOf(lh.config.Membership, ctx, blockheight.GetBlockHeight(block), blockreferencetime.GetBlockReferenceTime(prevBlock)))))))
+//@   | && len(bp.RandomSeedSignature()) > 0
+//@   | && VerifiedSeed(lh.config.KeyManager, block.Height(), SeedBytes(SeedOf(prevbp.RandomSeedSignature())), emptyStr, bp.RandomSeedSignature())
+
 //@ func (*WorkerLoop).ValidateBlockConsensus
-//@   props C02 C12
+//@   props C02 C12 C03
+//@   ensures [C03:complete.a-well-formed-commit-certificate-is-accepted] StaysLive(ctx) && block != nil && len(blockProofBytes) > 0
+//@     | && CertGood(lh, ctx, block, protocol.BlockProofReader(blockProofBytes), protocol.BlockProofReader(maybePrevBlockProofBytes), prevBlock, softVerify) ==> result == nil
+//@   must_fail [C03:vacuity.the-acceptance-condition-is-satisfiable] !(StaysLive(ctx) && block != nil && len(blockProofBytes) > 0
+//@     | && CertGood(lh, ctx, block, protocol.BlockProofReader(blockProofBytes), protocol.BlockProofReader(maybePrevBlockProofBytes), prevBlock, softVerify))
 //@   requires lh.config != nil
 //@   ensures [sound.block] result == nil ==> block != nil && len(blockProofBytes) > 0
 //@   ensures [sound.type] result == nil ==> protocol.BlockProofReader(blockProofBytes).BlockRef().MessageType() == protocol.LEAN_HELIX_COMMIT
@@ -31,12 +54,14 @@ package leanhelix
 //@     invariant [signatures] forall k :: 0 <= k && k < len(senderIds) ==> VerifiedMsg(lh.config.KeyManager, blockRefFromProof.BlockHeight(), blockRefFromProof.Raw(), seq_at(blockProof, "Nodes", k).MemberId(), seq_at(blockProof, "Nodes", k).Signature())
 //@     invariant [members] forall k :: 0 <= k && k < len(senderIds) ==> (exists i :: 0 <= i && i < len(committeeMembers) && committeeMembers[i].Id == senderIds[k])
 //@     invariant [set] forall x Str :: set[x] == (exists k :: 0 <= k && k < len(senderIds) && content(senderIds[k]) == x)
+//@     invariant [set.only-true-entries] forall x Str :: has(set, x) ==> set[x]
 //@     invariant [distinct] forall j, k :: 0 <= j && j < k && k < len(senderIds) ==> senderIds[j] != senderIds[k]
 
 //@ func (*MainLoop).ValidateBlockConsensus
-//@   props C02
+//@   props C02 C03
 //@   requires m.worker != nil && m.worker.config != nil
 //@   ensures [delegates] true
+//@   assert before call ValidateBlockConsensus [O2.the-api-call-validates-exactly-what-it-was-given] $block == block && $blockProofBytes == blockProofBytes && $prevBlock == prevBlock && $maybePrevBlockProofBytes == maybePrevBlockProofBytes && $softVerify == softVerify && $ctx == ctx
 
 //@ func GetMemberIdsFromBlockProof
 //@   props C02 C12
